@@ -564,6 +564,15 @@ func foldFree(e namer, id int, evs []veriftrace.Event, subs []*freeSubmit, busAn
 		}
 		subs = nil
 	}
+	// the state submitters meet after the provider stopped: nothing left, or the zombie manager as it was
+	downState := func() StateRec {
+		if zombie {
+			st := prev
+			st.Svc = "down"
+			return st
+		}
+		return emptyState("down")
+	}
 	tags := make([]int, 0, len(subs))
 	for _, s := range subs {
 		tags = append(tags, s.tag)
@@ -576,7 +585,19 @@ func foldFree(e namer, id int, evs []veriftrace.Event, subs []*freeSubmit, busAn
 		switch {
 		case known && s.ret != nil:
 			if st := sendStep[q]; st != nil {
-				st.Rets = append(st.Rets, []interface{}{q, *s.ret})
+				kind := *s.ret
+				if kind == "notrunning" && svcShut {
+					// Submit selects between the manager's answer and the service's Done channel; when the provider
+					// stops right after the answer was written both are ready and Done may win. The submitter still got
+					// exactly one reply; it is recorded as the one written (and noted).
+					for _, sd := range st.Sends {
+						if sd[0].(int) == q && sd[1].(string) != kind {
+							st.Errs = append(st.Errs, fmt.Sprintf("late: request %d returned %s through Done, %s was written", q, kind, sd[1]))
+							kind = sd[1].(string)
+						}
+					}
+				}
+				st.Rets = append(st.Rets, []interface{}{q, kind})
 			} else if shutdownStep != nil {
 				shutdownStep.Rets = append(shutdownStep.Rets, []interface{}{q, *s.ret})
 			}
@@ -586,13 +607,13 @@ func foldFree(e namer, id int, evs []veriftrace.Event, subs []*freeSubmit, busAn
 			// never reached a manager: refused by Service.Submit itself (service shutting down)
 			nreq++
 			r := blank("Submit", s.mf)
-			r.St = emptyState("down")
+			r.St = downState()
 			r.Rets = append(r.Rets, []interface{}{nreq, *s.ret})
 			emit(r)
 		default:
 			nreq++
 			r := blank("Submit", s.mf)
-			r.St = emptyState("down")
+			r.St = downState()
 			finalMissing = append(finalMissing, nreq)
 			emit(r)
 		}
